@@ -22,9 +22,63 @@ def pairs(prog, classes):
     return out
 
 
-def rule(prog, res, classes, rule_name='setter-stores', minimum=None):
+def _slots(f, R):
+    """(rendered lvalue, node id) of every direct assignment of the function to state of `this`"""
+    out = []
+    for nd in f.nodes:
+        lhs = None
+        if nd['k'] in ('BinaryOperator', 'CompoundAssignOperator') and (nd.get('op') == '=' or nd['k'] == 'CompoundAssignOperator'):
+            lhs = nd['ch'][0]
+        elif nd['k'] == 'CXXOperatorCallExpr' and nd.get('op') == '=' and len(nd.get('args', [])) == 2:
+            lhs = nd['args'][0]
+        if lhs is not None:
+            lt = R.render(lhs)
+            if lt.startswith('this.'):
+                out.append((lt, nd['id']))
+    return out
+
+
+def exclusive_rule(prog, res, classes, rule_name):
+    """a value setter of a plain value class writes its own component only: writing what a sibling getter returns (directly, or by
+    calling the sibling's setter) makes the stored object depend on the order in which the components were set"""
+    ps = pairs(prog, classes)
+    getter_slot = {}
+    for q, g, s in ps:
+        R = Renderer(g)
+        rets = [R.render(r['ch'][0]) for r in g.all_nodes({'ReturnStmt'}) if r.get('ch')]
+        if len(rets) == 1 and re.match(r'^this\.\w+(\[\d+\])?$', rets[0]):
+            getter_slot[q] = rets[0]
+    setter_usr = {s.usr: q for q, g, s in ps}
+    n = 0
+    for q, g, s in ps:
+        if q not in getter_slot:
+            continue
+        n += 1
+        own = getter_slot[q]
+        inst = '%s(value)' % '::'.join(q.split('::')[-2:])
+        Rs = Renderer(s)
+        bad = []
+        for lt, nid in _slots(s, Rs):
+            for q2, sl in getter_slot.items():
+                if q2 != q and lt == sl and sl != own:
+                    bad.append((nid, 'assigns %s, the component %s() returns' % (lt, q2.split('::')[-1])))
+        for c in s.calls():
+            q2 = setter_usr.get(c['callee'].get('usr'))
+            if q2 and q2 != q and c.get('obj') is not None and Rs.render(c['obj']) == 'this' and getter_slot.get(q2) != own:
+                bad.append((c['id'], 'calls the setter %s(%s)' % (q2.split('::')[-1], ', '.join(Rs.render(a) for a in s.call_args(c)))))
+        if bad:
+            res.viol(rule_name, inst + ' exclusive', s.loc(bad[0][0]), 'the setter of %s also %s: setting one component changes another, so the object no longer holds the values it was given' %
+                     (q.split('::')[-1], '; '.join(b[1] for b in bad[:3])), function=s.sig, expr='exclusive:' + q.split('::')[-1], sure=True)
+        else:
+            res.ok(rule_name, inst + ' exclusive', s.loc(), 'writes no component that a sibling getter returns and calls no sibling setter', function=s.sig, expr='exclusive:' + q.split('::')[-1])
+    return n
+
+
+def rule(prog, res, classes, rule_name='setter-stores', minimum=None, exclusive=False):
     E = FX.get(prog)
     n = 0
+    if exclusive:
+        exclusive_rule(prog, res, classes, rule_name)
     for q, g, s in pairs(prog, classes):
         R = Renderer(g)
         read = set()
@@ -62,6 +116,14 @@ def rule(prog, res, classes, rule_name='setter-stores', minimum=None):
             res.viol(rule_name, inst, s.loc(), 'the setter stores its argument through %s: the value read back through the getter of the same name is not the value that was set' % changed,
                      function=s.sig, expr='setter:' + q.split('::')[-1], sure=True)
             continue
+        rets = [R.render(r['ch'][0]) for r in g.all_nodes({'ReturnStmt'}) if r.get('ch')]
+        if wrote & read and len(rets) == 1 and re.match(r'^this\.\w+\[\d+\]$', rets[0]):
+            fld = rets[0].split('[')[0]
+            mine = [lt for lt, _n in _slots(s, Rs) if lt.split('[')[0] == fld]
+            if mine and all(re.match(r'^this\.\w+\[\d+\]$', lt) for lt in mine) and rets[0] not in mine:
+                res.viol(rule_name, inst, s.loc(), 'the setter stores into %s while the getter of the same name reads %s: the value set is not the value read back' % (sorted(set(mine)), rets[0]),
+                         function=s.sig, expr='setter:' + q.split('::')[-1], sure=True)
+                continue
         if wrote & read:
             res.ok(rule_name, inst, s.loc(), 'stores into %s, which the getter of the same name reads' % sorted(wrote & read), function=s.sig, expr='setter:' + q.split('::')[-1])
         elif not wrote:
